@@ -32,7 +32,7 @@ ANCHORS = [
     ("tangelo/toolboxes/qubit_mappings/hcb.py", "hard_core_boson_operator,boson_to_qubit_mapping", "seniority-zero integrals and boson-to-qubit map"),
     ("tangelo/toolboxes/operators/operators.py", "get_coeffs", "coefficient tensors"),
 ]
-REQUIRED = {"car": 300, "adjoint": 40, "product": 40, "linearity": 25, "constant": 20, "spectrum_full_space": 40, "jw_matrix": 20, "scbk_spectrum": 9, "scbk_algebra": 20, "hcb_matrix": 4, "combinatorial_spectrum": 8}
+REQUIRED = {"encoding_repeatable": 40, "encoded_operator_unchanged": 40, "car": 300, "adjoint": 40, "product": 40, "linearity": 25, "constant": 20, "spectrum_full_space": 40, "jw_matrix": 20, "scbk_spectrum": 9, "scbk_algebra": 20, "hcb_matrix": 4, "combinatorial_spectrum": 8}
 BUDGET = {"quick": 240, "thorough": 3000}
 TOL = 1e-9
 FULL = ["JW", "BK", "JKMN"]
@@ -69,16 +69,34 @@ def fop(terms):
     return op
 
 
-def enc(terms, mapping, n, utd=False, ne=None, spin=0):
+def enc(terms, mapping, n, utd=False, ne=None, spin=0, ctx=None, tangelo_class=False):
+    """Encode.  With ctx: the SAME operator object is encoded three times (an encoding is a function of the operator: repeated
+    encodings agree term by term, and the encoded operator is left as it was)."""
     from tangelo.toolboxes.qubit_mappings.mapping_transform import fermion_to_qubit_mapping
     op = fop(terms)
-    if mapping == "HCB":
+    if mapping == "HCB" or tangelo_class:
         # the paired mapping is defined on Tangelo's own FermionOperator class (needs its coefficient tensors)
         from tangelo.toolboxes.operators import FermionOperator as TFermionOperator
         t = TFermionOperator()
         t.terms = dict(op.terms)
         op = t
-    return fermion_to_qubit_mapping(op, mapping, n_spinorbitals=n, n_electrons=ne, up_then_down=utd, spin=spin)
+    r = fermion_to_qubit_mapping(op, mapping, n_spinorbitals=n, n_electrons=ne, up_then_down=utd, spin=spin)
+    if ctx is not None:
+        before = dict(fop(terms).terms)
+        ok_in = dict(op.terms) == before
+        diffs = []
+        for rep in (2, 3):
+            r2 = fermion_to_qubit_mapping(op, mapping, n_spinorbitals=n, n_electrons=ne, up_then_down=utd, spin=spin)
+            keys = set(r.terms) | set(r2.terms)
+            diffs.append(max([abs(complex(r.terms.get(k, 0)) - complex(r2.terms.get(k, 0))) for k in keys] or [0.0]))
+            ok_in = ok_in and dict(op.terms) == before
+        ctx.check("encoding_repeatable", max(diffs) < 1e-10,
+                  f"{mapping}: encoding the same operator object again gives a different qubit operator",
+                  lambda: {"mapping": mapping, "n": n, "up_then_down": utd, "terms": {repr(k): repr(v) for k, v in list(terms.items())[:12]},
+                           "max_coefficient_difference_2nd_3rd": diffs, "operator_class": type(op).__name__})
+        ctx.check("encoded_operator_unchanged", ok_in, f"{mapping}: the fermionic operator passed in was modified by the encoding",
+                  lambda: {"mapping": mapping, "n": n, "up_then_down": utd})
+    return r
 
 
 def qmat(qop, nq):
@@ -217,7 +235,7 @@ def run_spectrum(case, ctx):
     ev_f = np.linalg.eigvalsh(fock.fermion_terms_matrix(H, n))
     for m in FULL:
         for utd in (False, True):
-            q = enc(H, m, n, utd)
+            q = enc(H, m, n, utd, ctx=ctx, tangelo_class=(case.get("i", 0) % 2 == 1))
             ev_q = np.linalg.eigvalsh(qmat(q, n))
             ctx.check("spectrum_full_space", np.max(np.abs(ev_f - ev_q)) < 1e-8,
                       f"{m} (up_then_down={utd}): spectrum of the encoded Hamiltonian differs from the fermionic spectrum",
@@ -267,7 +285,7 @@ def run_scbk(case, ctx):
     assert np.max(np.abs(off)) < 1e-12 if off.size else True
     ev_f = np.linalg.eigvalsh(blk)
     try:
-        q = enc(H, "SCBK", n, utd, ne=ne, spin=spin)
+        q = enc(H, "SCBK", n, utd, ne=ne, spin=spin, ctx=ctx)
     except ValueError as e:
         if "does not conserve" in str(e):
             ctx.check("scbk_domain", False, "a parity-conserving operator was refused by scBK", dict(wit, error=str(e)))
@@ -319,7 +337,7 @@ def run_hcb(case, ctx):
             occ += [b, b]
         idx.append(fock.index_of(occ))
     P = Hm[np.ix_(idx, idx)]
-    q = enc(H, "HCB", n)
+    q = enc(H, "HCB", n, ctx=ctx)
     got = qmat(q, n_orb)
     ctx.check("hcb_matrix", refsim.dist(got, P) < 1e-8, "HCB: qubit operator is not the Hamiltonian projected on the paired-electron space",
               lambda: {"n_orb": n_orb, "seed_case": case["i"], "integrals": flavour, "max_diff": refsim.dist(got, P)})
